@@ -4,8 +4,8 @@ package sim
 
 import (
 	"encoding/json"
-	"os"
 	"fmt"
+	"os"
 	"runtime/debug"
 	"sort"
 	"time"
@@ -107,11 +107,17 @@ func NewChainOnDB(cfg Config, db dbm.DB) (c *Chain, err error) {
 			err = fmt.Errorf("InitChain panic: %v\n%s", r, debug.Stack())
 		}
 	}()
+	cp := *exocoreapp.DefaultConsensusParams
+	if cfg.BlockMaxGas != 0 {
+		bp := *cp.Block
+		bp.MaxGas = cfg.BlockMaxGas
+		cp.Block = &bp
+	}
 	res := c.App.InitChain(abci.RequestInitChain{
 		Time:            cfg.GenesisTime,
 		ChainId:         cfg.ChainID,
 		Validators:      []abci.ValidatorUpdate{},
-		ConsensusParams: exocoreapp.DefaultConsensusParams,
+		ConsensusParams: &cp,
 		AppStateBytes:   stateBytes,
 		InitialHeight:   1,
 	})
